@@ -79,6 +79,8 @@ func (g *Gen) val() string {
 		return base + strings.Repeat("x", 100+g.r.IntN(300))
 	case 3:
 		return base + " sp ace"
+	case 4:
+		return base + "\u00e9\u20ac\U0001F600" // valid multi-byte UTF-8: bytes and characters differ
 	}
 	return base
 }
@@ -87,7 +89,7 @@ func (g *Gen) val() string {
 func (g *Gen) member() string { return "m" + strconv.Itoa(g.r.IntN(8)) }
 func (g *Gen) field() string  { return "f" + strconv.Itoa(g.r.IntN(6)) }
 func (g *Gen) elem() string {
-	if g.chance(3) {
+	if g.chance(2) {
 		return "e" + strconv.Itoa(g.r.IntN(4)) // duplicates on purpose
 	}
 	return g.val()
@@ -354,7 +356,11 @@ func (g *Gen) listCmd() []string {
 	case 14, 15:
 		return []string{g.name("LINSERT"), k, g.kw(g.pick("BEFORE", "AFTER", "BEFORE", "AFTER", "MIDDLE")), g.elem(), g.val()}
 	case 16, 17:
-		return []string{g.name("LREM"), k, g.count(), g.elem()}
+		if g.chance(3) {
+			return []string{g.name("LREM"), k, g.count(), g.elem()}
+		}
+		// several equal elements and a count that selects some of them, from either end
+		return []string{g.name("LREM"), k, g.pick("-3", "-2", "-2", "-1", "0", "1", "2", "2"), "e" + strconv.Itoa(g.r.IntN(3))}
 	case 18, 19:
 		return []string{g.name("LTRIM"), k, g.index(), g.index()}
 	case 20, 21:
